@@ -124,7 +124,7 @@ func c16(r *core.Run) {
 
 	c16Recover(r)
 	c16Strict(r)
-	c16Enum(r)
+	c16EnumRule(r, "C16.ENUM")
 	c16Walk(r)
 	c16Attr(r)
 }
@@ -345,7 +345,7 @@ func c16Strict(r *core.Run) {
 	r.Floor("C16.STRICT", "per-file result stores in goroutines", nFlag, 1)
 }
 
-func c16Enum(r *core.Run) {
+func c16EnumRule(r *core.Run, rule string) {
 	p := r.P
 	// enumerator: recursive function that appends fingerprint results and walks AnonFuncs
 	n := 0
@@ -380,13 +380,13 @@ func c16Enum(r *core.Run) {
 					okRF = true
 				}
 			}
-			r.Check(okRF, "C16.ENUM", fnm+"#synthetic-skip", ret.Pos(), "synthetic functions are skipped only if they are not range-over-func bodies", "every synthetic function is skipped, including range-over-func loop bodies that carry source statements: edits inside such loops are never fingerprinted [guards: "+strings.Join(gs, " ; ")+"]")
+			r.Check(okRF, rule, fnm+"#synthetic-skip", ret.Pos(), "synthetic functions are skipped only if they are not range-over-func bodies", "every synthetic function is skipped, including range-over-func loop bodies that carry source statements: edits inside such loops are never fingerprinted [guards: "+strings.Join(gs, " ; ")+"]")
 		}
 		// recursion into AnonFuncs on every non-skipped path: guards of the recursive call are only the loop + the skips
 		for _, ci := range core.Calls(fn, func(_ string, c *ssa.CallCommon) bool { return core.StaticCallee(c) == fn }) {
 			for _, g := range mandatoryGuards(fn, ci.Block()) {
 				ok := (strings.Contains(g, ".Synthetic") || strings.Contains(g, "range-over-func") || strings.Contains(g, "lookup(") || strings.Contains(g, ".AnonFuncs") || strings.Contains(g, "Name(")) && !strings.Contains(g, ".Blocks")
-				r.Check(ok, "C16.ENUM", fnm+"#anon-recursion-unconditional", ci.Pos(), "recursion into anonymous functions is not conditioned on the function's own body", "recursion into anonymous functions is conditioned on "+g+": closures of some functions are never visited")
+				r.Check(ok, rule, fnm+"#anon-recursion-unconditional", ci.Pos(), "recursion into anonymous functions is not conditioned on the function's own body", "recursion into anonymous functions is conditioned on "+g+": closures of some functions are never visited")
 			}
 		}
 		// every function with blocks is fingerprinted: the fingerprint call is guarded only by len(Blocks) > 0 and the skips
@@ -401,11 +401,11 @@ func c16Enum(r *core.Run) {
 			}
 			for _, g := range mandatoryGuards(fn, in.Block()) {
 				ok := strings.Contains(g, ".Synthetic") || strings.Contains(g, "range-over-func") || strings.Contains(g, ".Blocks") || strings.Contains(g, "lookup(") || strings.Contains(g, "Name(")
-				r.Check(ok, "C16.ENUM", fnm+"#fingerprint-guard", in.Pos(), "fingerprinting is conditioned only on having a body and the skip rules", "fingerprinting is additionally conditioned on "+g)
+				r.Check(ok, rule, fnm+"#fingerprint-guard", in.Pos(), "fingerprinting is conditioned only on having a body and the skip rules", "fingerprinting is additionally conditioned on "+g)
 			}
 		})
 	}
-	r.Floor("C16.ENUM", "recursive function enumerator (walks AnonFuncs)", n, 1)
+	r.Floor(rule, "recursive function enumerator (walks AnonFuncs)", n, 1)
 	// member kinds: a type switch over ssa.Member handles *ssa.Function and *ssa.Type with all methods
 	nSw := 0
 	for _, rel := range []string{"pkg/diff", "internal/cli"} {
@@ -426,11 +426,11 @@ func c16Enum(r *core.Run) {
 			})
 			if hasFn || hasTy {
 				nSw++
-				r.Check(hasFn && hasTy && methods, "C16.ENUM", core.FuncName(fn)+"#member-kinds", fn.Pos(), "package members: functions and every method of named types are enumerated", "the member enumeration does not cover functions and all methods of named types")
+				r.Check(hasFn && hasTy && methods, rule, core.FuncName(fn)+"#member-kinds", fn.Pos(), "package members: functions and every method of named types are enumerated", "the member enumeration does not cover functions and all methods of named types")
 			}
 		}
 	}
-	r.Floor("C16.ENUM", "package-member enumerations", nSw, 2)
+	r.Floor(rule, "package-member enumerations", nSw, 2)
 }
 
 func c16Walk(r *core.Run) {
